@@ -354,6 +354,6 @@ fn grid_strings(short: &str) -> (&'static str, &'static str) {
         r2_m1, r2_m2, r3_full, r3_m1, r3_m2, r4_full, r4_m1, r4_m2, r5_full, r5_m1, r5_m2, r6_full, r6_m1, r6_m2, r7_full, r7_m1, r7_m2, r8_full,
         r8_m1, r8_m2, r9_full, r9_m1, r9_m2, r10_full, r10_m1, r10_m2, r11_full, r11_m1, r11_m2, r12_full, r12_m1, r12_m2, r13_full, r13_m1,
         r13_m2, b125, b61, b124, b60, b123, b59, b122, b58, b121, b57, b120, b56, ta1, ta2, ta3, ta4, ta5, ta8, ta16, ta24, ta33, ta40, ta47, ta48,
-        near_ones_n2, no_carry_edge_n3
+        near_ones_n2, no_carry_edge_n3, top_2spare_n2, top_2spare_n4, top_2spare_n6, top_3spare_n2, top_3spare_n3
     )
 }
